@@ -202,6 +202,12 @@ class Abstractor:
             if isinstance(r, tuple) and r[0] == "const":
                 v = self.fl.P.fold_or_none(r[1], r[1].assigns[r[2]])
                 if isinstance(v, (int, float, str)) and not isinstance(v, bool):
+                    # a constant DERIVED from other module constants (`_TOL = 10 ** (-COORD_PRECISION)`) has their provenance
+                    node_ = r[1].assigns[r[2]]
+                    inner = sorted({x.id for x in ast.walk(node_) if isinstance(x, ast.Name)}) if not isinstance(node_, ast.Constant) else []
+                    inner = [x for x in inner if isinstance(self.fl.P.resolve_in_module(r[1], x), tuple) and self.fl.P.resolve_in_module(r[1], x)[0] == "const"]
+                    if inner and _d < 6:
+                        return AV(frozenset(f"global:{x}" for x in inner), frozenset())
                     return AV(frozenset({f"global:{nm}"}), frozenset())
             return AV(frozenset({"global:" + d}), frozenset())
         if isinstance(e, ast.Attribute):
